@@ -326,6 +326,7 @@ func (m *c11Msg) lookalike() bool {
 // locales
 
 type c11Locale struct {
+	Rule   int // Model/MsgParts.v plural_rule
 	Name   string
 	N      int
 	Header string   // Plural-Forms
@@ -334,14 +335,14 @@ type c11Locale struct {
 }
 
 var c11Locales = []c11Locale{
-	{"ja", 1, "nplurals=1; plural=0;", nil, "return 0;"},
-	{"en", 2, "nplurals=2; plural=(n != 1);", []string{"$P == 1"}, "return n != 1 ? 1 : 0;"},
-	{"ru", 3, "nplurals=3; plural=(n%10==1 && n%100!=11 ? 0 : n%10>=2 && n%10<=4 && (n%100<10 || n%100>=20) ? 1 : 2);",
+	{0, "ja", 1, "nplurals=1; plural=0;", nil, "return 0;"},
+	{1, "en", 2, "nplurals=2; plural=(n != 1);", []string{"$P == 1"}, "return n != 1 ? 1 : 0;"},
+	{2, "ru", 3, "nplurals=3; plural=(n%10==1 && n%100!=11 ? 0 : n%10>=2 && n%10<=4 && (n%100<10 || n%100>=20) ? 1 : 2);",
 		[]string{"$P % 10 == 1 and $P % 100 != 11", "$P % 10 >= 2 and $P % 10 <= 4 and ($P % 100 < 10 or $P % 100 >= 20)"},
 		"return (n%10==1 && n%100!=11) ? 0 : (n%10>=2 && n%10<=4 && (n%100<10 || n%100>=20)) ? 1 : 2;"},
 	// thorough tier only
-	{"fr", 2, "nplurals=2; plural=(n > 1);", []string{"not ($P > 1)"}, "return n > 1 ? 1 : 0;"},
-	{"cs", 3, "nplurals=3; plural=(n==1) ? 0 : (n>=2 && n<=4) ? 1 : 2;", []string{"$P == 1", "$P >= 2 and $P <= 4"}, "return n==1 ? 0 : (n>=2 && n<=4) ? 1 : 2;"},
+	{3, "fr", 2, "nplurals=2; plural=(n > 1);", []string{"not ($P > 1)"}, "return n > 1 ? 1 : 0;"},
+	{4, "cs", 3, "nplurals=3; plural=(n==1) ? 0 : (n>=2 && n<=4) ? 1 : 2;", []string{"$P == 1", "$P >= 2 and $P <= 4"}, "return n==1 ? 0 : (n>=2 && n<=4) ? 1 : 2;"},
 }
 
 // ---------------------------------------------------------------------------
@@ -662,6 +663,8 @@ type c11Cat struct {
 	exp      []srcFile
 	goOut    []c11Outcome
 	goExp    []c11Outcome // Go, the rewritten program without a catalogue
+	model    []c11Outcome // the Coq model with the same catalogue (err = outcome class when not ok)
+	ents     string       // the catalogue as model request fields
 	jsErr    string       // generation error
 	jsUnit   int
 	jsExp    int // JS unit of the rewritten program
@@ -729,6 +732,7 @@ func runC11(e *env) {
 
 	var bundles []*c11Bundle
 	var units []*c11JSUnit
+	partStrings := map[string]bool{}
 	t0 := time.Now()
 	for bi := 0; bi < nBundles; bi++ {
 		c11Msgs = nil
@@ -795,6 +799,41 @@ func runC11(e *env) {
 		}
 		if incoherent && !hasParens {
 			c11Fail(e, hx.Violation{Kind: "oracle", What: "two placeholders with different source expressions share one name", Case: rp}, "")
+		}
+		// ---- the model: registry, and Validate / Msgid / MsgidPlural of every message ----
+		ids := newIDTable()
+		mkey := fmt.Sprintf("c11reg%d", bi)
+		if r := e.m.Call("load_registry", mkey, registrySexp(reg, ids)); len(r) == 0 || r[0] != "#1" {
+			c11Fail(e, hx.Violation{Kind: "mismatch", What: "model cannot load the registry", Case: rp, Observed: fmt.Sprint(r)}, "")
+			continue
+		}
+		for _, m := range msgs {
+			n := nodes[m.Idx]
+			r := e.m.Call("c11_msg", nodeSexp(n, ids))
+			e.res.Count("msg"+n.String(), true, "model:msg")
+			if len(r) != 7 {
+				c11Fail(e, hx.Violation{Kind: "mismatch", What: "model fails on a message node", Case: rp, Observed: fmt.Sprint(r)}, "")
+				continue
+			}
+			verr := pomsg.Validate(n)
+			implV := "ok"
+			if verr != nil {
+				implV = "err"
+			}
+			if r[0] != implV {
+				what, key := "pomsg.Validate disagrees with the model", ""
+				if r[1] == implV {
+					what = "pomsg.Validate accepts a message whose msgid is not read back as the message (the pinned behaviour; repair C11-validate-readback)"
+					key = "validate-pinned"
+				}
+				c11Fail(e, hx.Violation{Kind: "mismatch", What: what, Case: c11Replay{Files: orig, Template: entry, Messages: []*c11Msg{m}}, Expected: r[0], Observed: implV + " " + fmt.Sprint(verr)}, key)
+			}
+			if verr == nil && r[0] == "ok" && len(n.Body.Children()) > 0 {
+				if r[2] != "some" || hx.UnH(r[4]) != pomsg.Msgid(n) || hx.UnH(r[5]) != pomsg.MsgidPlural(n) {
+					c11Fail(e, hx.Violation{Kind: "mismatch", What: "pomsg.Msgid / MsgidPlural differ from the model", Case: c11Replay{Files: orig, Template: entry, Messages: []*c11Msg{m}},
+						Expected: fmt.Sprint(r[2], " ", hx.Q(hx.UnH(r[4])), " ", hx.Q(hx.UnH(r[5]))), Observed: hx.Q(pomsg.Msgid(n)) + " " + hx.Q(pomsg.MsgidPlural(n))}, "")
+				}
+			}
 		}
 		// ---- extraction with the real tool ----
 		dir := filepath.Join(scratch, fmt.Sprintf("b%d", bi))
@@ -884,7 +923,6 @@ func runC11(e *env) {
 		}
 		// ---- no catalogue ----
 		B := &c11Bundle{files: orig, entry: entry, data: dataSets, msgs: msgs}
-		ids := newIDTable()
 		for _, d := range dataSets {
 			out, rerr := c11Render(tofu, entry, d, nil)
 			B.base = append(B.base, c11Outcome{out, errStr(rerr)})
@@ -925,6 +963,8 @@ func runC11(e *env) {
 					return kind == "identity" || kind == "reversed" || inPartial[id]
 				}
 				var pf po.File
+				var ents []string
+				nents := 0
 				pf.Header = map[string][]string{"Language": {loc.Name}, "Content-Type": {"text/plain; charset=UTF-8"}}
 				if e.rng.Bool() {
 					pf.Header["Plural-Forms"] = []string{loc.Header}
@@ -952,6 +992,12 @@ func runC11(e *env) {
 						pm.Str = nil
 					}
 					pf.Messages = append(pf.Messages, pm)
+					ents = append(ents, c11U(pe.id), hx.H(pe.v), hx.I(int64(len(pm.Str))))
+					for _, str := range pm.Str {
+						ents = append(ents, hx.H(str))
+						partStrings[str] = true
+					}
+					nents++
 				}
 				var pb bytes.Buffer
 				pf.WriteTo(&pb)
@@ -986,7 +1032,7 @@ func runC11(e *env) {
 					}
 					return m.rewrite(forms, loc)
 				}, msgs)
-				c := &c11Cat{kind: kind, loc: loc, po: pb.String(), exp: exp, jsUnit: -1, jsExp: -1}
+				c := &c11Cat{kind: kind, loc: loc, po: pb.String(), exp: exp, jsUnit: -1, jsExp: -1, ents: hx.I(int64(nents)) + " " + strings.Join(ents, " ")}
 				switch {
 				case kind == "identity" && hasLook:
 					c.keys = "brace-token-text"
@@ -1025,6 +1071,9 @@ func runC11(e *env) {
 					o, x := c11Outcome{out, errStr(rerr)}, c11Outcome{expOut, errStr(expErr)}
 					c.goOut = append(c.goOut, o)
 					c.goExp = append(c.goExp, x)
+					mo := c11ModelRender(e, mkey, entry, c.loc.Rule, c.ents, B.dsx[di])
+					c.model = append(c.model, mo)
+					e.res.Count("model"+fmt.Sprint(orig)+B.dsx[di]+c.kind+c.loc.Name, nontrivial, "model:render")
 					e.res.Count(fmt.Sprint(orig)+B.dsx[di]+c.kind+c.loc.Name, nontrivial, "go:"+c.kind+":"+c.loc.Name)
 					crp := c11Replay{Files: orig, Expected: c.exp, Template: entry, Data: B.dsx[di], Kind: c.kind, Locale: ask, PO: c.po, Backend: "go", Messages: msgs}
 					if bi%37 == 0 && di == 0 && c.kind == "reversed" && c.loc.Name == "ru" {
@@ -1034,6 +1083,23 @@ func runC11(e *env) {
 						c11Fail(e, hx.Violation{Kind: "oracle", What: "panic escaped Render with a catalogue", Case: crp, Observed: errStr(rerr)}, "")
 						continue
 					}
+					if ok, comparable := c11ModelAgrees(mo, o); !comparable {
+						e.res.Histogram["model:"+mo.err]++
+					} else if !ok {
+						key := ""
+						if c.kind == "untranslated" {
+							key = "empty-msgstr" // newBundle as pinned
+						}
+						c11Fail(e, hx.Violation{Kind: "mismatch", What: "rendering with the " + c.kind + " catalogue differs from the model", Case: crp,
+							Expected: hx.Q(mo.out) + " class=" + mo.err, Observed: hx.Q(o.out) + " error=" + hx.Q(o.err)}, key)
+					}
+					// a failure is attributed to the finding only when the implementation shows the recorded behaviour (the model's)
+					attr := func(key string) string {
+						if ok, comparable := c11ModelAgrees(mo, o); key == "same-string-placeholders" && !(ok && comparable) {
+							return ""
+						}
+						return key
+					}
 					if !o.same(x) {
 						what := "rendering with the " + c.kind + " catalogue does not put the translated text and the placeholders' values where the translation puts them"
 						if c.kind == "untranslated" {
@@ -1041,7 +1107,7 @@ func runC11(e *env) {
 						} else if c.kind == "partial" {
 							what = "rendering with a partial catalogue: a translated message is misplaced or a missing one does not fall back to its source text"
 						}
-						key := c.keys
+						key := attr(c.keys)
 						if c.kind == "untranslated" && key == "" {
 							key = "empty-msgstr"
 						}
@@ -1049,7 +1115,7 @@ func runC11(e *env) {
 					}
 					if c.kind == "identity" && c.loc.Name == "en" && !o.same(B.base[di]) {
 						c11Fail(e, hx.Violation{Kind: "oracle", What: "the identity translation does not render byte for byte what rendering without a catalogue does", Case: crp,
-							Expected: hx.Q(B.base[di].out) + " error=" + hx.Q(B.base[di].err), Observed: hx.Q(o.out) + " error=" + hx.Q(o.err)}, c.keys)
+							Expected: hx.Q(B.base[di].out) + " error=" + hx.Q(B.base[di].err), Observed: hx.Q(o.out) + " error=" + hx.Q(o.err)}, attr(c.keys))
 					}
 				}
 				// JavaScript with the same catalogue, and the rewritten program without one
@@ -1073,6 +1139,7 @@ func runC11(e *env) {
 		os.RemoveAll(dir)
 	}
 	e.res.Note("go side: %d bundles in %.1fs", len(bundles), time.Since(t0).Seconds())
+	c11PartsCorrespondence(e, partStrings)
 
 	// ---- node: every unit in its own context, one process per chunk ----
 	t1 := time.Now()
@@ -1155,6 +1222,9 @@ func runC11(e *env) {
 					crp.DataJSON = string(dj)
 				}
 				key := c.keys
+				if key == "same-string-placeholders" && !(di < len(c.model) && c.model[di].err == "" && j.err == "" && c.model[di].out == j.out) {
+					key = "" // not the recorded behaviour of the finding
+				}
 				if c.kind == "untranslated" && key == "" {
 					key = "empty-msgstr"
 				}
@@ -1288,4 +1358,88 @@ func c11Fail(e *env, v hx.Violation, key string) {
 		v.What += " [trigger: " + key + "]"
 	}
 	e.res.Fail(v, key)
+}
+
+func c11U(id uint64) string { return "#" + strconv.FormatUint(id, 10) }
+
+// the model's render with a catalogue: outcome class and bytes
+func c11ModelRender(e *env, key, entry string, rule int, ents, dsx string) c11Outcome {
+	r := e.m.Call("c11_render", key, sx(entry), "#4000", hx.I(int64(rule)), "#0", ents, ";", dsx)
+	if len(r) == 0 || strings.HasPrefix(r[0], "!") {
+		return c11Outcome{"", "model-failure " + strings.Join(r, " ")}
+	}
+	var mo strings.Builder
+	for _, f := range r[1:] {
+		mo.WriteString(hx.UnH(f))
+	}
+	cls := strings.Split(r[0], ",")[0]
+	if cls == "ok" {
+		return c11Outcome{mo.String(), ""}
+	}
+	return c11Outcome{mo.String(), cls}
+}
+
+// model and implementation agree: both render the same bytes, or both fail with the same bytes written so far
+func c11ModelAgrees(m, o c11Outcome) (bool, bool) {
+	switch m.err {
+	case "outofmodel", "fuel":
+		return true, false // not comparable
+	case "", "err":
+		return (m.err == "") == (o.err == "") && m.out == o.out, true
+	}
+	return false, true
+}
+
+// soymsg.Parts against the model: every msgstr written above, every string of
+// length <= 6 over { } A _ a, and random strings over a brace-rich alphabet
+func c11PartsCorrespondence(e *env, seen map[string]bool) {
+	var strs []string
+	for s := range seen {
+		strs = append(strs, s)
+	}
+	sort.Strings(strs)
+	alpha := []string{"{", "}", "A", "_", "a"}
+	var gen func(prefix string, n int)
+	gen = func(prefix string, n int) {
+		strs = append(strs, prefix)
+		if n == 0 {
+			return
+		}
+		for _, a := range alpha {
+			gen(prefix+a, n-1)
+		}
+	}
+	gen("", 6)
+	wide := []string{"{", "}", "{", "}", "A", "Z", "0", "9", "_", "a", "z", " ", "$", "é", "{X}", "{A_1}", "{}", "\n", "\xff", "[", "@", "/", ":"}
+	for i := 0; i < 3000*e.scale; i++ {
+		var sb strings.Builder
+		for k := e.rng.Intn(14); k > 0; k-- {
+			sb.WriteString(wide[e.rng.Intn(len(wide))])
+		}
+		strs = append(strs, sb.String())
+	}
+	reqs := make([]string, len(strs))
+	for i, s := range strs {
+		reqs[i] = "c11_parts " + hx.H(s)
+	}
+	res := e.m.Batch(reqs)
+	for i, s := range strs {
+		var want []string
+		ps := soymsg.Parts(s)
+		want = append(want, hx.I(int64(len(ps))))
+		for _, p := range ps {
+			switch p := p.(type) {
+			case soymsg.RawTextPart:
+				want = append(want, "T", hx.H(p.Text))
+			case soymsg.PlaceholderPart:
+				want = append(want, "P", hx.H(p.Name))
+			default:
+				want = append(want, "?")
+			}
+		}
+		e.res.Count("parts"+s, strings.Contains(s, "{"), "model:parts")
+		if strings.Join(want, " ") != strings.Join(res[i], " ") {
+			c11Fail(e, hx.Violation{Kind: "mismatch", What: "soymsg.Parts differs from the model", Case: hx.Q(s), Expected: strings.Join(res[i], " "), Observed: strings.Join(want, " ")}, "")
+		}
+	}
 }
